@@ -539,3 +539,32 @@ def success_effects(facts, inst_id, memo=None, depth=0):
                 out |= success_effects(facts, to, memo, depth + 1)
     memo[inst_id] = frozenset(out)
     return memo[inst_id]
+
+
+
+def writer_drop_waits_turn(ctx, rule):
+    """A SequentialWriter releases its successor (send on on_finish) only after its own turn has
+    come, even when dropped unused.  Shared by C01.3 and C10.7."""
+    facts = ctx.facts
+    f = method(facts, T_DROP, SW, "drop")
+    ctx.touch(f)
+    senders = [(bb, t) for bb, t in f.calls() if call_is(t, SEND) and "on_finish" in arg_origin_fields(f, t)]
+    recvs = [bb for bb, t in f.calls() if call_is(t, RECV, "std::sync::mpsc::Receiver::<T>::recv_timeout") and "trigger" in arg_origin_fields(f, t)]
+    none_targets = set()
+    for bb in sorted(f.live_blocks()):
+        sw = switch_on_discr(f, bb)
+        if sw and "trigger" in origin_fields(f.origin_place(sw[0]["pl"])):
+            rv, m, otherwise, rest = sw
+            if "None" in m:
+                none_targets.add(m["None"])
+            elif "None" in rest:
+                none_targets.add(otherwise)
+    passed = {f.normal_target(bb) for bb in recvs}
+    reach = f.reach([0], blocked=passed | none_targets, unwind=False)
+    if not senders:
+        ctx.ob(rule, "%s|send-after-own-turn" % f.id, "the writer's destructor releases its successor", False, "%s:%d" % (f.file, f.line), "no send on on_finish in Drop")
+    for bb, t in senders:
+        ok = bool(recvs) and bb not in reach
+        ctx.ob(rule, "%s|send-after-own-turn" % f.id,
+               "a writer releases its successor only after its own turn has come (its predecessor finished), even when it is dropped without ever writing",
+               ok, f.loc(bb), None if ok else "Drop sends the successor's token without waiting for this writer's trigger: dropping an unused writer (e.g. `drop(rq.into_writer())`, or the parser abandoning a writer when new_request fails) lets a later response (or the 417/400 of a rejected request) overtake an earlier pending one")
